@@ -132,4 +132,16 @@ PROPS = {
         ],
         "trusted_base": ["Model/Steps.v transcription validated by whole-call tape replay"],
     },
+    "C11": {
+        "harness_cmd": ["c11", "steps"],
+        "oracle_props": ["C11"],
+        "property_files": ["C11.v"],
+        "expected_theorems": ["C11_occupied_exact", "C11_occupied_in_time_order", "C11_count_is_number_of_occupied", "C11_first_is_minimum",
+                              "C11_last_is_maximum", "C11_bond_counts_add_up", "C11_var_has_ops_exact"],
+        "assumptions": [
+            "the refinement 'linked structure = scan of the contents' is decided by comparing the serde snapshot of every private link field with Model/Nav.v after every mutation (differential against the specification), not by a Coq refinement proof of mutate_p",
+            "mutation callbacks respect the container's contracts: mutate_ops / sub-variable cursors only replace operators on the same variables (removal through mutate_ops reads next_p of the removed node and panics; a cursor cannot be prepared at p = len)",
+        ],
+        "trusted_base": ["serde_json view of FastOps (ops, links, n, p_ends, var_ends, bond_counters)"],
+    },
 }
